@@ -678,8 +678,45 @@ macro_rules! srv_harness {
         harness! {
             #[kani::stub(ntp_proto::KeySet::decode_cookie, crate::common::model_decode_cookie)]
             #[kani::stub(ntp_proto::KeySet::encode_cookie, crate::common::model_encode_cookie)]
+            #[kani::stub(core::str::from_utf8, crate::common::from_utf8_stub)]
+            #[kani::stub(core::slice::ascii::is_ascii, crate::common::is_ascii_stub)]
             $(#[$m])*
             fn $name() $body
         }
     };
+}
+
+// ------------------------------------------------------------------------------------------
+// std stubs (trusted base; same models as np_packet_h/src/common.rs)
+
+/// Loop-free ASCII test for up to 32 bytes (longer inputs: plain loop, needs a matching unwind).
+pub fn all_ascii(v: &[u8]) -> bool {
+    let n = v.len();
+    macro_rules! chk { ($($i:expr),*) => { $( if n > $i && v[$i] >= 0x80 { return false; } )* } }
+    chk!(0, 1, 2, 3, 4, 5, 6, 7, 8, 9, 10, 11, 12, 13, 14, 15, 16, 17, 18, 19, 20, 21, 22, 23, 24, 25, 26, 27, 28, 29, 30, 31);
+    let mut i = 32;
+    while i < n {
+        if v[i] >= 0x80 {
+            return false;
+        }
+        i += 1;
+    }
+    true
+}
+/// Model of `core::str::from_utf8`: Ok iff every byte is ASCII. The only caller in the code under
+/// test (NTPv5 draft identification) rejects non-ASCII strings anyway (`Ok(di) if di.is_ascii()`),
+/// so reporting non-ASCII UTF-8 as invalid is observationally equivalent there. The real
+/// validation loop (word-at-a-time + SIMD) does not finish symbolic execution.
+pub fn from_utf8_stub(v: &[u8]) -> Result<&str, std::str::Utf8Error> {
+    if all_ascii(v) {
+        Ok(unsafe { std::str::from_utf8_unchecked(v) })
+    } else {
+        const _: () = assert!(std::mem::size_of::<std::str::Utf8Error>() == 16);
+        // all-zero = { valid_up_to: 0, error_len: None } whatever the field order; never inspected
+        Err(unsafe { std::mem::transmute::<[u8; 16], std::str::Utf8Error>([0u8; 16]) })
+    }
+}
+/// Model of `<[u8]>::is_ascii` (the real one takes a SIMD path Kani models with nested loops).
+pub fn is_ascii_stub(v: &[u8]) -> bool {
+    all_ascii(v)
 }
